@@ -31,9 +31,12 @@ def _run(cmd, timeout=3000, input=None):
     return p.returncode, p.stdout
 
 
-def build(targets):
-    """lake build the targets; returns (ok, log)"""
+def build(targets, clean=None):
+    """lake build the targets; returns (ok, log).  `clean`: modules whose build products are removed first, inside the
+    same exclusive lock — no other check ever sees the tree with an olean missing (parallel thorough runs share modules)"""
     with Lock():
+        if clean:
+            clean_modules(clean)
         rc, out = _run(['lake', 'build'] + list(targets))
     return rc == 0, out
 
